@@ -14,7 +14,7 @@
    covers the converse direction, soundness of a True answer, on that finite domain). *)
 From Coq Require Import ZArith QArith List Bool Arith Lia.
 From Persim Require Import Spec.MGH Model.MGHM Proofs.MGHBasics Proofs.MGHUb Proofs.MGHLb
-  Proofs.MGHSweep Proofs.MGHEst Proofs.MGHGreedy Proofs.MGHFinal.
+  Proofs.MGHSweep Proofs.MGHEst Proofs.MGHGreedy Proofs.MGHFinal Model.MGHLegacy Proofs.MGHDec Proofs.MGHLegacyP.
 Import ListNotations.
 Open Scope Z_scope.
 
@@ -142,6 +142,18 @@ Theorem estimate_total : forall (pick : oracle) DX DY s1 s2, in_range pick ->
   estimate2 pick DX DY s1 s2 <> None.
 Proof. exact estimate2_total. Qed.
 Print Assumptions estimate_total.
+
+(* Legacy (pinned tree, NumPy >= 2): the sort key `len(K) * diam_X` is computed in the int8 type of
+   diam_X; on two copies of the star with 128 points the curvature search starts and its first
+   round raises OverflowError instead of returning a bracket (fixed by
+   fixes/C05_sortkey_overflow.patch, after which the exact-key oracle is the faithful one; the
+   positive theorems above hold for every oracle anyway). *)
+Theorem sortkey_legacy_refuted :
+  dmatrix_b (star 128) = true /\ diam (star 128) = 2 /\ trivial_lb (star 128) (star 128) = 0 /\
+  legacy_step (star 128) (seq 0 128) 2 2 = StepRaise /\
+  legacy_step (star 127) (seq 0 127) 2 2 <> StepRaise.
+Proof. exact sortkey_legacy_raises. Qed.
+Print Assumptions sortkey_legacy_refuted.
 
 (* ---- non-vacuity: the hypotheses are met by concrete graphs (P3 and K1), and the model runs *)
 Definition P3 : mat := [[0;1;2];[1;0;1];[2;1;0]].
